@@ -96,9 +96,6 @@ Definition strict_eq_spec (x y : numeric) : bool :=
 Definition to_float (a : jsnum) : f64 :=          (* valueInt.ToFloat = float64(i) *)
   match a with NInt z => of_Z z | NFlt f => f end.
 
-Definition intToValue (i : Z) : jsnum :=
-  if (- two53 <=? i) && (i <=? two53) then NInt i else NFlt (of_Z i).
-
 (* Go int64(f) as amd64 executes it: the "integer indefinite" value -2^63 when out of range / NaN *)
 Definition go_int64 (f : f64) : Z :=
   match trunc_Z f with
@@ -109,11 +106,20 @@ Definition go_int64 (f : f64) : Z :=
 Definition floatToInt (f : f64) : option Z :=
   if int_like f then Some (go_int64 f) else None.
 
+(* intToValue and floatToValue call each other in vm.go (after fix 8cd79d6 the fallback of intToValue is
+   floatToValue(float64(i))); the recursion is at most two deep: floatToValue only passes |i| <= 2^53,
+   which intToValue returns directly.  [int_in_range] is that direct branch. *)
+Definition int_in_range (i : Z) : bool := (- two53 <=? i) && (i <=? two53).
+
 Definition floatToValue (f : f64) : jsnum :=
   match floatToInt f with
-  | Some i => intToValue i
+  | Some i => if int_in_range i then NInt i
+              else NFlt f       (* unreachable: floatToInt only succeeds within +/-2^53; kept total *)
   | None => NFlt f              (* -0, NaN, +/-inf are returned as the shared constants *)
   end.
+
+Definition intToValue (i : Z) : jsnum :=
+  if int_in_range i then NInt i else floatToValue (of_Z i).
 
 Definition toNumeric (a : jsnum) : jsnum :=
   match a with NInt _ => a | NFlt f => floatToValue f end.
@@ -159,11 +165,20 @@ Definition fmod (x y : f64) : f64 :=
 (* ------------------------------------------------------------------------------------------ *)
 (* I: integer conversions (runtime.go:1009-1216) *)
 
+(* runtime.go floatToInt64Mod32 (fix a7163a1): int64(f) when -2^63 <= f < 2^63, else int64(math.Mod(f, 2^32)).
+   The float comparisons against the integer constants are modelled by their mathematical meaning on the
+   integral part, and math.Mod by its (documented exact) result: the truncated remainder. *)
+Definition floatToInt64Mod32 (f : f64) : Z :=
+  match trunc_Z f with
+  | Some k => if (- two63 <=? k) && (k <? two63) then k else Z.rem k two32
+  | None => - two63
+  end.
+
 Definition toIntN (signed : bool) (bits : Z) (a : jsnum) : Z :=
   let w := if signed then wrapS bits else wrapU bits in
   match a with
   | NInt i => w i
-  | NFlt f => if is_finite f then w (go_int64 f) else 0
+  | NFlt f => if is_finite f then w (floatToInt64Mod32 f) else 0
   end.
 Definition toInt32 := toIntN true 32.
 Definition toUint32 := toIntN false 32.
@@ -263,8 +278,8 @@ Definition op_neg (a : jsnum) : jsnum :=
   match toNumeric a with
   | NInt n => if n =? 0 then NFlt fnegzero else NInt (wrap64 (- n))
   | NFlt _ =>
-      let f := to_float a in           (* operand.ToFloat(), no canonicalisation of the result *)
-      NFlt (if is_nan f then f else fneg f)
+      let f := to_float a in           (* operand.ToFloat(); floatToValue since fix 03125f6 *)
+      floatToValue (if is_nan f then f else fneg f)
   end.
 
 Definition op_plus (a : jsnum) : jsnum := a.        (* ToNumber of a Number is the value itself *)
@@ -272,12 +287,12 @@ Definition op_plus (a : jsnum) : jsnum := a.        (* ToNumber of a Number is t
 Definition op_inc (a : jsnum) : jsnum :=
   match a with
   | NInt n => intToValue (wrap64 (n + 1))
-  | NFlt f => NFlt (fadd f fone)                     (* no floatToValue: vm.go:1622 *)
+  | NFlt f => floatToValue (fadd f fone)             (* floatToValue since fix 1c33988 *)
   end.
 Definition op_dec (a : jsnum) : jsnum :=
   match a with
   | NInt n => intToValue (wrap64 (n - 1))
-  | NFlt f => NFlt (fsub f fone)
+  | NFlt f => floatToValue (fsub f fone)
   end.
 
 (* the Go expressions have type int32 / uint32: wrapS 32 / wrapU 32 is that typing (the identity on
@@ -332,6 +347,48 @@ Definition m_max (a b : jsnum) :=
 Definition m_min (a b : jsnum) :=
   let x := to_float a in let y := to_float b in
   if is_nan x || is_nan y then NFlt fnan else floatToValue (fmin2 (fmin2 (finf false) x) y).
+
+(* ---- x ** y and Math.pow on integer operands (builtin_math.go pow, ipow.go) ---- *)
+Definition ipow_overflows : list Z :=
+  [9223372036854775807; 9223372036854775807; 3037000499; 2097151; 55108; 6208; 1448; 511;
+   234; 127; 78; 52; 38; 28; 22; 18; 15; 13; 11; 9; 8; 7; 7; 6; 6; 5; 5; 5; 4; 4; 4; 4;
+   3; 3; 3; 3; 3; 3; 3; 3; 2; 2; 2; 2; 2; 2; 2; 2; 2; 2; 2; 2; 2; 2; 2; 2; 2; 2; 2; 2; 2; 2; 2; 2].
+
+(* the unrolled square-and-multiply of ipow: highestBitSet[exp] = bit length of exp stages, int64 wrap *)
+Fixpoint ipow_loop (n : nat) (base exp result : Z) : Z :=
+  match n with
+  | O => result
+  | S n' =>
+      let result := if Z.odd exp then wrap64 (result * base) else result in
+      ipow_loop n' (wrap64 (base * base)) (exp / 2) result
+  end.
+
+Definition ipow (base exp : Z) : Z :=
+  if 63 <=? exp then
+    (if base =? 1 then 1 else if base =? -1 then 1 - 2 * (exp mod 2) else 0)
+  else
+    let lim := nth (Z.to_nat exp) ipow_overflows 0 in
+    if (lim <? base) || (lim <? - base) then 0
+    else ipow_loop (Z.to_nat (Z.log2 exp + 1)) base exp 1.
+
+(* math.Pow on two integral arguments: taken to be the correctly rounded exact power (Go's math.Pow is
+   within a few ulps of it; the comparison in Run.v allows for that when the power is not representable) *)
+Definition pow_float_int (x y : Z) : f64 := of_Z (x ^ y).
+
+Definition op_pow (a b : jsnum) : option jsnum :=      (* None: operand shapes that are not modelled *)
+  match a, b with
+  | NInt x, NInt y =>
+      if y <? 0 then None
+      else if y =? 0 then Some (intToValue 1)
+      else if x =? 0 then Some (intToValue 0)
+      else let ip := ipow x y in
+           if negb (ip =? 0) then Some (intToValue ip)
+           else Some (floatToValue (pow_float_int x y))
+  | _, _ => None
+  end.
+
+(* S: Number::exponentiate on integers with a non-negative integral exponent has an exact answer *)
+Definition S_pow (x y : Z) : jsnum := canon_of (of_Z (x ^ y)).
 
 (* ------------------------------------------------------------------------------------------ *)
 (* I: comparisons and hashing (value.go:215-262, 618-700) *)
@@ -537,3 +594,6 @@ Definition jsnum_eqb (a b : jsnum) : bool :=
   | NFlt f, NFlt g => same_bits f g
   | _, _ => false
   end.
+
+(* the word goja feeds to / returns from the hash function of Map and Set keys *)
+Definition hash_words (a : jsnum) : Z := hash a.
